@@ -6,7 +6,7 @@ from engine import rule
 from flow import flow_of
 from effects import PATH_TAKING
 from vocab import where
-from rules_gc import name_builders, cmp_bounds
+from rules_gc import name_builders, cmp_bounds, built_paths
 
 PATH_ARG = {'std::fs::OpenOptions::open': 1}
 
@@ -58,7 +58,7 @@ def fs1(ctx):
         fl = flow_of(b)
         a = path_arg(cs)
         back = fl.backward(set(fl.op_nodes(a))) if a is not None else set()
-        from_builder = any(c.path in nb_paths and any(x in back for x in fl.call_result_nodes(c)) for c in b.calls)
+        from_builder = any(vals & back for (vals, _b2, _c) in built_paths(ctx, b))
         dir_itself = ('m', 'Directory.dir') in back or any(('l', i) in back and b.local_ty(i) in ('&std::path::Path', '&std::path::PathBuf') for i in range(1, b.arg_count + 1))
         joined = any(c.name.startswith('std::path::Path::join') and any(x in back for x in fl.call_result_nodes(c)) for c in b.calls)
         if e in ('OPENRO', 'SCAN'):
